@@ -47,7 +47,8 @@ chk(
     "(ENOENT/ENOTDIR/EACCES) is injected at every stat/listdir call position of each tree's walk; the tree is mutated at chosen call "
     "positions in mid-walk; root removal is judged for exactly one DirDeletedEvent and a stopped emitter; every second batch uses a "
     "lazily failing listdir (a generator, as a scandir-based listdir would be); stop() landing inside a walk must not change the baseline "
-    "the in-flight poll is diffed against.",
+    "the in-flight poll is diffed against; relative and non-normalised watch roots; ELOOP/EIO on per-entry stat calls; thread mode "
+    "judges what the emitter queued (the delivered stream only up to coalesced adjacent duplicates).",
     "Trusted: the VFS (POSIX-like lookup semantics), the reference diff in c10.py. Direct mode calls on_thread_start()/queue_events(0) "
     "from the harness thread; thread mode installs each scripted state atomically at the start of a walk.",
     category="fault_enumeration",
@@ -73,7 +74,9 @@ chk(
     "{d-e,d,d+e,2d}, close} plus random scripts to 30 ops, executed against the real DelayedQueue whose time/threading module "
     "globals are a virtual clock and a waiter-counting Condition; checker: FIFO, exactly-once over get+remove, never early, "
     "undelayed head not delayed, close unblocks a parked get, later get returns the end marker. Holds park consumer/put/remove/"
-    "close at every executed line while the other operations run.",
+    "close at every executed line while the other operations run. A third of the random scripts use ephemeral, value-identified "
+    "elements (the rig keeps no reference, so a new element may get the address of one that has just gone; 'replace' = remove + put "
+    "with nothing allocated in between); predicates that raise; a bulk case with 40 000 (thorough 300 000) elements waiting at once.",
     "Trusted: virtual clock + counting Condition (harness), offline checker. Liveness is judged logically (consumer parked in the "
     "condition with elements outstanding / after close), never by wall clock; a rig that cannot reach quiescence is inconclusive.",
 )
@@ -160,7 +163,10 @@ chk(
     "Exploration: the C01 engine biased to directory building/reshaping plus a regression corpus (witnesses of F5/F7/F8); at the end "
     "and at random intermediate drains one probe per existing directory (every directory of the tree, as the quantifier demands) is "
     "created and must appear as a non-synthetic FileCreatedEvent with src_path equal to the root as given joined with the real "
-    "relative name; non-recursive: probes below a child directory must never be reported.",
+    "relative name; non-recursive: probes below a child directory must never be reported. 15% of the histories ask for "
+    "follow_symlink=True (no link exists: nothing may change); a long-lifetime script renames a directory as the n-th move of the "
+    "watch for n around the powers of two up to 1024 and probes at once; arrival faults with ENOENT and ENOSPC; a stream that ends "
+    "because a library thread died is a violation here too.",
     "Trusted: as C01. A directory that is watched with a mask lacking a bit would still answer a create probe (C11's subject).",
 )
 
@@ -211,7 +217,9 @@ chk(
     "failure injected at inotify_init and at each inotify_add_watch of trees of 1-4 (thorough 6) directories x {ENOENT, ENOSPC, EMFILE, "
     "EACCES} x {idle, running observer} (complete); (c) reader/emitter/dispatcher/closer parked at every discovered line of the read and "
     "close paths while the other side runs (closer-role holds also with a concurrent schedule()); audited after every shutdown, every "
-    "failing call, and once a stop() of a started observer has completed - before any further stop().",
+    "failing call, and once a stop() of a started observer has completed - before any further stop(); one long-lived observer over "
+    "60 (thorough 400) schedule/event/unschedule rounds audited after each; RuntimeError injected at threading.Thread.start of the "
+    "emitter / reader thread; start/stop cycles in a child process without stdin (inotify_init returns 0).",
     "Trusted: the ledger proxies (forward to the real kernel). strace is a cross-check only (one child process per run).",
     category="fault_enumeration",
 )
@@ -220,7 +228,8 @@ chk(
     "C11", "wdverif/props/c11.py",
     "differential stream oracle: one history observed by an unfiltered and k filtered watches of the same observer; collapse(filter(unfiltered)) must equal collapse(filtered); logical quiescence drains (FIONREAD, parked poll, parked delay-queue consumer)",
     "Exploration: paced histories biased to move-out, move-in of trees, directories created after start with later activity inside, "
-    "opens/closes, each observed by 1 unfiltered + 6 (thorough 8) filtered watches; filters: every concrete class, FileSystemEvent, "
+    "opens/closes, each observed by 1 unfiltered + 6 filtered watches (7 inotify instances x 16 workers stays below the per-user limit "
+    "of 128); filters: the empty filter, every concrete class, FileSystemEvent, "
     "FileSystemMovedEvent, pairs, random subsets of 3-6; recursive/non-recursive; normal/full emitter; sequences compared after "
     "collapsing adjacent identical events; 30% of the cases add a directory that arrives together with a symbolic link to a directory "
     "outside the tree, followed by activity there (found F28).",
@@ -241,7 +250,7 @@ chk(
 chk(
     "C08", "wdverif/props/c08.py",
     "offline trace checker over the consumer's (item, virtual time) log of the real InotifyBuffer/Inotify over a simulated kernel and a virtual clock; directed line holds (zero-duration and deadline-spanning)",
-    "Exploration: every native sequence up to length 4 (thorough 5) over {F1,T1,F2,T2,X,Y,S(nameless),IGNORED} x every cut into read "
+    "Exploration: every native sequence up to length 4 (thorough 5) over {F1,T1 (file rename), F2,T2 (directory rename, IN_ISDIR), X,Y,S(nameless),IGNORED} x every cut into read "
     "batches x gaps {0,d-e,d,d+e,2d} (quick: strided) + random longer sequences with large/small read sizes and an early close; the "
     "real Inotify.read_events/_parse_event_buffer/InotifyBuffer._group_events/DelayedQueue run over fake descriptors; checker: every "
     "native event exactly once (alone or in one pair, never both), kernel order, pair whenever the second half is released before "
@@ -261,7 +270,8 @@ chk(
     "stop() returned; shell-command scripts for non-overlap; holds park the debouncer / dispatcher / watcher thread at every executed "
     "line of EventDebouncer.run and AutoRestartTrick._stop_process/_restart_process/_start_process while stop() or the next event runs; "
     "stop() before / racing start() of the helper threads; the watcher thread of the n-th child failing to start; events never handed to "
-    "a debouncer must not appear in its batches.",
+    "a debouncer must not appear in its batches; debounce timing judged from the call stamp of handle_event() (sound lower bound); "
+    "the debouncer parked inside threading.Condition.wait on the timeout path while an event arrives.",
     "Processes are simulated (fake Popen, kill_process, fast clock behind tricks.subprocess/kill_process/time); real signals are not "
     "exercised (the upstream tests that do are skipped here for lack of PyYAML). Three genuine defects of AutoRestartTrick are recorded "
     "as known findings (F11, F21 and its consequence) and matched by mechanism.",
